@@ -571,6 +571,43 @@ func c14Polygons(c *fw.Ctx, idx int) {
 			}
 		}
 	}
+	if r.Chance(1, 4) {
+		// one polygon object used as a cursor: added, moved in place by a whole number
+		// of units, added again ... - the calculator has taken what it was shown, and
+		// what the caller does to the polygon afterwards is not its business
+		cur := c14BuildPolygon(polys[0], layout, r)
+		calc := xy.NewAreaCentroidCalculator(layout)
+		var shown []c14poly
+		var ox2, oy2 int64
+		for k := 0; k < r.Range(2, 4); k++ {
+			sp := make(c14poly, len(polys[0]))
+			for ri, ring := range polys[0] {
+				sp[ri] = make([]ipt, len(ring))
+				for vi, v := range ring {
+					sp[ri][vi] = ipt{v.x + ox2, v.y + oy2}
+				}
+			}
+			shown = append(shown, sp)
+			pcx, pcy, ptx, pty, pz := c14AreaCentroid(shown, shown[0][0][0])
+			var g2 geom.Coord
+			dx, dy := int64(r.Range(-3000, 3000)), int64(r.Range(-3000, 3000))
+			if c.Guard("panic", func() {
+				calc.AddPolygon(cur)
+				geom.TransformInPlace(cur, func(co geom.Coord) { co[0] += float64(dx); co[1] += float64(dy) })
+				g2 = calc.GetCentroid()
+			}) {
+				return
+			}
+			ox2, oy2 = ox2+dx, oy2+dy
+			if pz {
+				break
+			}
+			c.Count("calculator_fed_one_polygon_object_moved_in_place_between_additions")
+			if !c14CheckCent(c, fmt.Sprintf("AreaCentroidCalculator fed one polygon object %d times, the object moved in place after each addition", k+1), g2, pcx, pcy, ptx, pty) {
+				return
+			}
+		}
+	}
 	var got geom.Coord
 	if c.Guard("panic", func() { got = xy.PolygonsCentroid(gp[0], gp[1:]...) }) {
 		return
